@@ -3,6 +3,7 @@ import Beetswap.Proofs.ConnHandler
 import Beetswap.Proofs.Handler
 import Beetswap.Proofs.ClientView
 import Beetswap.Proofs.Net
+import Beetswap.Proofs.ClientLink
 /-!
 # C14 — A wantlist handed to a connection is delivered whole or reported failed (partial)
 
@@ -13,12 +14,15 @@ interleaved trace of one connection: every accepted wantlist gets exactly one co
 a stream negotiated after it was accepted, flushed before `Ready` is reported, or is reported
 failed; never two frames, never a frame of another wantlist, never a second outcome.
 
-PARTIAL: (1) that a buffered and flushed frame reaches the peer whole is yamux's byte-stream
-contract (assumed; exercised by the simulator); (2) `Obeys` — a new wantlist is handed over only
-after the outcome of the previous one — is the behaviour's obligation: `one_in_flight` shows the
-behaviour hands nothing over while its copy of the sending state says a transmission is in
-flight, which mirrors the handler's state unless acknowledgements are late (known finding F14).
-The handler traces recorded from real swarms are validated against this automaton on every run.
+PARTIAL: that a buffered and flushed frame reaches the peer whole is yamux's byte-stream contract
+(assumed; exercised by the simulator). `Obeys` — a new wantlist is handed over only after the
+outcome of the previous one — is the behaviour's obligation; it is *proved* below for the
+composition `Model/ClientLink` (the client behaviour, one handler automaton per connection and the
+event channels of libp2p-swarm between them), for every schedule: several connections,
+acknowledgements as late as one likes, closes and failures at any point (`behaviour_obeys_handlers`).
+Before the repair of finding F14 it was false (`f14_pinned_undisciplined`). The handler traces
+recorded from real swarms are validated against the automaton, and the channel laws the
+composition assumes are checked on the same recordings, on every run.
 -/
 namespace Beetswap.Props.C14
 open Beetswap.ClientHandler Beetswap.Spec.HandlerSpec
@@ -233,6 +237,87 @@ times, polled at 6000 ms: reported failed, halted. -/
 example : (ClientHandlerTimed.run {} [.sendWantlist 1000 7, .poll 1000 ⟨.pending, true, .pending⟩, .allocFailed,
     .poll 3000 ⟨.pending, true, .pending⟩, .allocFailed, .poll 5999 ⟨.pending, true, .pending⟩, .allocFailed,
     .poll 6000 ⟨.pending, true, .pending⟩]).1.h.halted = true := by decide
+
+end
+
+end Beetswap.Props.C14
+
+namespace Beetswap.Props.C14
+
+/-! ### The behaviour and all its connection handlers (`Model/ClientLink`)
+
+`Model/Client` composed with one `Model/ClientHandler` per connection. A `SendWantlist` waits in
+the swarm until the connection's task takes it (dropped once the connection is closing); the
+events a handler returns reach the behaviour in order, tagged with the connection they come from;
+`ConnectionClosed` comes after `poll_close` has finished. No bound on any delay. -/
+section
+open Std Beetswap.ClientLink Beetswap.Proofs.ClientLink
+open Beetswap.Client (PeerSt Sending)
+open Beetswap.Spec.HandlerSpec (Obeys specRun traceOf)
+
+/-- "A connection is given a new wantlist only after the outcome of the previous one is known",
+for every schedule: in every reachable state of the composition the inputs every handler has seen
+obey the handler's environment obligations — each `send_wantlist` found the handler `Ready`,
+with nothing pending and nothing queued. -/
+theorem behaviour_obeys_handlers (s : ClientLink.State) (hr : Reachable s) (c : Nat) (l : Link)
+    (hl : s.links[c]? = some l) :
+    l.h = (ClientHandler.run {} l.ins).1 ∧ Obeys {} l.ins :=
+  Proofs.ClientLink.link_obeys s hr c l hl
+
+/-- … so C14's specification of one connection accepts the trace of every connection of every
+reachable state: `handler_refines_spec` without an assumption about the behaviour. -/
+theorem every_connection_trace_accepted (s : ClientLink.State) (hr : Reachable s) (c : Nat) (l : Link)
+    (hl : s.links[c]? = some l) :
+    (specRun {} (traceOf {} l.ins)).isSome = true :=
+  Proofs.ClientLink.link_trace_accepted s hr c l hl
+
+/-- A wantlist on its way to a live connection is the only one, finds the handler free, and no
+report of the handler is still on its way to the behaviour. -/
+theorem handover_finds_free (s : ClientLink.State) (hr : Reachable s) (c : Nat) (l : Link)
+    (hl : s.links[c]? = some l) (w : Nat) (rest : List Nat) (hc : l.cmds = w :: rest)
+    (hcl : l.h.closing = false) :
+    rest = [] ∧ l.h.ss = .ready ∧ l.h.msg = none ∧ l.h.queue = [] ∧ states l.reps = [] :=
+  Proofs.ClientLink.handover_finds_free s hr c l hl w rest hc hcl
+
+/-- A usable connection the current transmission is not tracked on is at rest. -/
+theorem untracked_connection_at_rest (s : ClientLink.State) (hr : Reachable s) (c : Nat) (l : Link)
+    (hl : s.links[c]? = some l) (ps : PeerSt) (hp : s.cl.s.peers[l.peer]? = some ps) (hm : c ∈ ps.conns)
+    (ht : ps.sending.conn? ≠ some c) :
+    l.cmds = [] ∧ states (l.reps ++ l.h.queue) = [] ∧ l.h.ss = .ready :=
+  Proofs.ClientLink.untracked_connection_at_rest s hr c l hl ps hp hm ht
+
+/-- The executable form of the discipline holds in every reachable state (the same check runs on
+random walks of the model in the Lean driver). -/
+theorem disciplined_reachable (s : ClientLink.State) (hr : Reachable s) : disciplined s = true :=
+  Proofs.ClientLink.disciplined_reachable s hr
+
+/-- Finding F14: with `sending_state_changed` as it was (the reporting connection unknown, the
+sending state overwritten), 23 actions lead to a wantlist handed to a connection whose previous
+one is still pending … -/
+theorem f14_pinned_undisciplined : disciplined (f14Trace.foldl stepPinned {}) = false :=
+  Proofs.ClientLink.f14_pinned_undisciplined
+
+/-- … and the same actions keep the discipline after the repair (non-vacuity of the hypotheses
+above: the trace reaches a state with two links, a given-up connection and a pending wantlist). -/
+theorem f14_repaired_disciplined : disciplined (ClientLink.run {} f14Trace) = true :=
+  Proofs.ClientLink.f14_repaired_disciplined
+
+example : Reachable (ClientLink.run {} f14Trace) := reachable_run {} Reachable.init f14Trace
+
+/-- A report from a connection other than the one the transmission is tracked on changes nothing. -/
+theorem stale_report_ignored (c : Client.State) (p src : Nat) (st : Sending) (ps : PeerSt) (t : Nat)
+    (hp : c.peers[p]? = some ps) (ht : ps.sending.conn? = some t) (hne : t ≠ src) :
+    Client.sendingChanged c p src st = c :=
+  Proofs.ClientSending.sendingChanged_ignored c p src st ps t hp ht hne
+
+/-- A report from the connection the transmission is tracked on (or when none is tracked) becomes
+the peer's sending state; nothing else changes. -/
+theorem own_report_taken (c : Client.State) (p src : Nat) (st : Sending) (q : Nat)
+    (h : ∀ ps, c.peers[p]? = some ps → ps.sending.conn? = none ∨ ps.sending.conn? = some src) :
+    (Client.sendingChanged c p src st).peers[q]? =
+      if q = p then (c.peers[p]?).map (fun ps => ({ ps with sending := st } : PeerSt)) else c.peers[q]? := by
+  rw [Proofs.ClientSending.sendingChanged_eq_set c p src st h]
+  exact Proofs.ClientSending.setSending_peers c p st q
 
 end
 
